@@ -159,6 +159,7 @@ class Gen(object):
         self.n = 0
         self.alias_hot = []
         self.shared_zones = []
+        self.open_iters = []    # (step id of the iter_open, recurrence name)
 
     def new_id(self):
         self.n += 1
@@ -493,6 +494,29 @@ class Gen(object):
                 self.alias_hot = [sid, a]
             else:
                 self.op("rec." + attr, [a], client=client)
+            return
+        if r < 0.3:
+            # iterators that stay open across other operations -- several
+            # over one recurrence, advanced in turn -- and the idioms that
+            # have two iterations of one recurrence live at once
+            r2 = rng.random()
+            mine = [it for it in self.open_iters if it[1] == a]
+            if r2 < 0.35 or not self.open_iters:
+                sid = self.op("rec.iter_open", [a], client=client)
+                self.open_iters = self.open_iters[-5:] + [(sid, a)]
+                if rng.random() < 0.6:
+                    sid2 = self.op("rec.iter_open", [a], client=client)
+                    self.open_iters.append((sid2, a))
+            elif r2 < 0.8:
+                it, rec = rng.choice(mine or self.open_iters)
+                self.op("rec.iter_next", [rec], [it, rng.choice([1, 2, 3])],
+                        client=client)
+            elif r2 < 0.9:
+                self.op("rec.pairs", [a], [rng.choice([2, 3, 5])],
+                        client=client)
+            else:
+                self.op("rec.loop_query", [a], [rng.choice([2, 3, 4])],
+                        client=client)
             return
         if r < 0.4:
             k = rng.choice([1, 2, 3, 5])
@@ -849,6 +873,16 @@ def gen_directed(rng, index):
             op("rec.get_first_after", [made, p1])
         op("dur.hash_str", [x])
     else:
+        # two iterations of the fresh value live at once, before anything
+        # else has walked it
+        i1 = op("rec.iter_open", [x])
+        i2 = op("rec.iter_open", [x])
+        op("rec.iter_next", [x], [i1, 2])
+        op("rec.iter_next", [x], [i2, 3])
+        op("rec.iter_next", [x], [i1, 2])
+        op("rec.pairs", [x], [3])
+        op("rec.loop_query", [x], [3])
+        op("rec.iter_next", [x], [i2, 1])
         for attr in REC_NOARG:
             op("rec." + attr, [x])
         taken = op("rec.take", [x], [3])
@@ -923,9 +957,16 @@ def snap(obj, depth=0, extras=None, path=""):
         return [snap(x, depth + 1, extras, "%s[%d]" % (path, i))
                 for i, x in enumerate(obj)]
     if isinstance(obj, dict):
-        return sorted((str(k), snap(v, depth + 1, extras,
-                                    "%s[%s]" % (path, k)))
-                      for k, v in obj.items())
+        items = []
+        for i, (k, v) in enumerate(obj.items()):
+            try:
+                ktxt = str(k)
+            except Exception as exc:      # a key that cannot be printed
+                ktxt = "<%s:%s>" % (type(k).__name__, type(exc).__name__)
+            items.append((ktxt, i, snap(v, depth + 1, extras,
+                                        "%s[%s]" % (path, ktxt))))
+        items.sort(key=lambda it: (it[0], it[1]))
+        return [[ktxt, val] for ktxt, _, val in items]
     cls = type(obj)
     if cls.__module__.startswith("metomi.isodatetime") and depth < 6:
         out = [cls.__name__]
@@ -1092,6 +1133,9 @@ class Sim(object):
         self.pairs = set()
         self.asked = []         # questions already answered in this epoch
         self.world_epoch = 0
+        self.iters = {}         # iterators left open across steps
+        self.cur_step_id = None
+        self.made = {}          # name -> (mk step, epoch): values with twins
 
     def count(self, key, n=1):
         self.counters[key] = self.counters.get(key, 0) + n
@@ -1252,6 +1296,34 @@ class Sim(object):
                 return out
             if meth == "getitem":
                 return a[sc[0]]
+            if meth == "iter_open":
+                self.iters[self.cur_step_id] = iter(a)
+                self.count("probe.iterator_opened")
+                return "OPEN"
+            if meth == "iter_next":
+                it = self.iters.get(sc[0])
+                if it is None:
+                    return "NOITER"
+                if sum(1 for k in self.iters if k != sc[0]):
+                    self.count("probe.iterator_advanced_while_others_open")
+                out = []
+                for _ in range(sc[1]):
+                    try:
+                        out.append(next(it))
+                    except StopIteration:
+                        out.append("STOP")
+                        break
+                return out
+            if meth == "pairs":
+                import itertools
+                return [[p, q] for p, q in itertools.islice(
+                    zip(a, itertools.islice(a, 1, None)), sc[0])]
+            if meth == "loop_query":
+                import itertools
+                out = []
+                for p in itertools.islice(a, sc[0]):
+                    out.append([p, a.get_is_valid(p), a.get_next(p)])
+                return out
             if meth in REC_ARG:
                 return getattr(a, meth)(ops[1])
             if meth == "contains":
@@ -1381,6 +1453,7 @@ class Sim(object):
         for step_no, step in enumerate(trace["steps"]):
             if step["k"] == "world":
                 self.reask(step_no, 10)
+                self.check_twins(step_no)
                 self.asked = []
                 self.world_epoch += 1
                 facade.apply(step["act"])
@@ -1397,6 +1470,7 @@ class Sim(object):
                 except Exception:
                     continue
                 self.admit(step["id"], val, [])
+                self.made[step["id"]] = (step, self.world_epoch)
                 self.sig.append("mk:" + step["t"])
                 # parsing / constructing a new value is a public operation
                 # too: it must leave every earlier value alone
@@ -1423,6 +1497,7 @@ class Sim(object):
             except Exception:
                 pass
             raised = False
+            self.cur_step_id = step["id"]
             try:
                 with kernel.guarded():
                     res = self.apply(name, ops, step["s"])
@@ -1447,8 +1522,9 @@ class Sim(object):
                         ops[0], data.TimeRecurrence):
                     # the same value was asked something before: ask again
                     self.reask(step_no, 2, about=step["a"][0])
-                self.asked.append([step_no, name, list(step["a"]),
-                                   list(step["s"]), out])
+                if not name.startswith("rec.iter_"):
+                    self.asked.append([step_no, name, list(step["a"]),
+                                       list(step["s"]), out])
             if isinstance(res, classes):
                 self.admit(step["id"], res, step["a"])
             elif isinstance(res, (list, tuple)):
@@ -1458,8 +1534,58 @@ class Sim(object):
                                    step["a"])
             self.check_all(step_no, name, step["a"], raised)
         self.reask(len(trace["steps"]), 25)
+        self.check_twins(len(trace["steps"]))
         self.check_observed(list(self.order), len(trace["steps"]), "end")
         return self
+
+    def battery(self, obj):
+        """A value's answers to a fixed set of questions, with and without
+        arguments (never asked of it before, possibly)."""
+        import itertools
+        from metomi.isodatetime import data
+        out = [public_view(obj)]
+        if not isinstance(obj, data.TimeRecurrence):
+            return out
+        try:
+            with kernel.guarded():
+                pts = list(itertools.islice(iter(obj), 8))
+                out.append(["first8", canon_plain(pts)])
+                for i in (0, 1, 3, 6):
+                    try:
+                        out.append(["item", i, canon_plain(obj[i])])
+                    except Exception as exc:
+                        out.append(["item", i, type(exc).__name__])
+                for p in pts[:3]:
+                    out.append(["q", canon_plain(
+                        [obj.get_is_valid(p), obj.get_next(p),
+                         obj.get_prev(p), obj.get_first_after(p)])])
+        except kernel.Hang:
+            out.append("HANG")
+        except Exception as exc:
+            out.append("EXC:" + type(exc).__name__)
+        return out
+
+    def check_twins(self, step_no):
+        """A value built from text or constructor arguments has a twin: the
+        same construction done afresh.  Whatever happened to the value since
+        (also what no earlier question observed), it answers as its twin
+        does."""
+        for name, (step, epoch) in list(self.made.items()):
+            if epoch != self.world_epoch or name not in self.pool:
+                continue
+            try:
+                with kernel.guarded():
+                    twin = self.make(step)
+            except Exception:
+                continue
+            mine, other = self.battery(self.pool[name]), self.battery(twin)
+            self.count("twins_compared")
+            if mine != other:
+                diff = [[a, b] for a, b in zip(mine, other) if a != b][:3]
+                self.violate("differs_from_twin", "mk." + step["t"], step_no,
+                             victim=name, mk=step, value_vs_twin=diff)
+            del self.made[name]
+        self.check_all(step_no, "twins", [], False)
 
     def reask(self, step_no, limit, about=None):
         """Observable state includes the answers to questions that take
